@@ -579,6 +579,25 @@ func (se *specEnv) call(x *ast.CallExpr) tv {
 		r := se.withState(se.pre, func() tv { return se.eval(x.Args[0]) })
 		se.overrides = saveOv
 		return r
+	case "old_elem":
+		// old_elem(s, i): element i of slice s as both were at function entry; i itself is a current-state term
+		if !argn(2) {
+			return tv{term: "false", typ: boolT}
+		}
+		idx := se.eval(x.Args[1])
+		saveOv := se.overrides
+		se.overrides = nil
+		r := se.withState(se.pre, func() tv {
+			base := se.eval(x.Args[0])
+			sl, ok := base.typ.Underlying().(*types.Slice)
+			if !ok || isStruct(sl.Elem()) {
+				return se.fail("old_elem needs a slice of scalars")
+			}
+			h, _ := se.v.elemHeap(sl.Elem())
+			return tv{term: sel(sel(se.v.getHeap(se.cur, h), fmt.Sprintf("(s_arr %s)", base.term)), fmt.Sprintf("(+ (s_off %s) %s)", base.term, idx.term)), typ: sl.Elem()}
+		})
+		se.overrides = saveOv
+		return r
 	case "at_entry":
 		// at_entry(e): value of e when the enclosing loop was entered (loop invariants only)
 		if !argn(1) {
@@ -638,6 +657,7 @@ func (se *specEnv) call(x *ast.CallExpr) tv {
 		} else {
 			delete(se.names, vid.Name)
 		}
+		bn, rng, body = rebaseQuant(bn, rng, body)
 		if id.Name == "all" {
 			return tv{term: fmt.Sprintf("(forall ((%s Int)) %s)", bn, imp(rng, body)), typ: boolT}
 		}
